@@ -72,6 +72,13 @@ def build_runner(case, log, workdir=None):
 
         def _run_simulation(self, current_params):
             v = var_of(current_params)
+            # what the iteration is handed: the variation's own index, the fixed parameters, the size of the grid
+            if grid and (current_params.unpack_index != v - 1 or current_params.get_num_unpacked_variations() != len(combos)):
+                log.append(["bad", v, f"unpack_index {current_params.unpack_index} / {current_params.get_num_unpacked_variations()} variations "
+                                      f"for combination {v} of {len(combos)}"])
+            for k, val in pc.FIXED.items():
+                if current_params[k] != val:
+                    log.append(["bad", v, f"fixed parameter {k} is {current_params[k]!r} in the variation"])
             a = self.attempt.get(v, 0) + 1
             self.attempt[v] = a
             if a in plans[v - 1]["skip"]:
@@ -171,6 +178,9 @@ def run_case(case):
                 if isinstance(ex, SkipThisOne):
                     return "SkipThisOne raised by the first repetition of a variation escaped simulate()", "FirstRepSkipEscapes", log
                 return f"simulate() raised {type(ex).__name__}: {ex}", None, log
+            bad = [e for e in log if e[0] == "bad"]
+            if bad:
+                return f"variation {bad[0][1]}: {bad[0][2]}", None, log
             calls = [[e[1], e[2], e[3]] for e in log if e[0] == "call"]
             tests = [[e[1], e[2], e[3]] for e in log if e[0] == "test"]
             if calls != case["calls"]:
